@@ -35,6 +35,10 @@ def toric : List String → Option String
       let (r, c) ← parseSize? r c; let i ← parseIdx3? i
       let op ← (match op.toList with | [ch] => P1.ofChar? ch | _ => none)
       pure (showBits (Toric.site r c op (Toric.identity r c) i))
+  | ["sites", r, c, op, v, l] => do
+      let (r, c) ← parseSize? r c; let op ← parseOp1? op; let v ← parseBits? v; let l ← parseIdx3List? l
+      if v.length != 2 * (Toric.nQubits r c).toNat then none
+      else pure (showBits (Toric.sites r c op v l))
   | ["plaq", r, c, i] => do
       let (r, c) ← parseSize? r c; let i ← parseIdx3? i
       pure (showBits (Toric.plaquette r c (Toric.identity r c) i))
